@@ -1164,3 +1164,12 @@ EXTRA['C10'] += [(_c11_outcomes, 'R10.8')]
 EXTRA['C11'] += [(_purpose, 'R11.12'), (_decorators, 'R11.13')]
 EXTRA['C12'] += [(_sleep_table, 'R12.33')]
 EXTRA['C20'] += [(_c10_schedule, 'R20.29')]
+
+
+def _c13_paused(ctx: Ctx, rule: str) -> None:
+    # "asked to stop ... when the operator pauses": the pausing sweep of the daemon killer covers every daemon, unconditionally (C13 decides it; C09 states it too)
+    from . import C13
+    include(ctx, C13.check_pause_wiring, rule, "C13")
+
+
+EXTRA['C09'] += [(_c13_paused, 'R9.13')]
